@@ -19,6 +19,9 @@ CLAIMS = {
 CLAIMS["C04"] = ("stateless model checking of the real code: delay-bounded exhaustive schedule enumeration; wait-for-graph analysis of every final state",
     "Every schedule (<= deviation bound, synchronisation-operation granularity) of every 2-thread client program over {submit, nested submit, cancel, add_done_callback, nested callback, result, shutdown} on each executor layer and four stacks, over sync / thread-pool / manual bases, is executed on the real code; a thread blocked for ever on a lock or join (cycle, self-edge, dead holder) is a violation.",
     "DESIGN.md section 6 C04")
+CLAIMS["C11"] = ("stateless model checking of the real code: delay-bounded exhaustive schedule enumeration over workload states x racing submit x wait flag",
+    "Every schedule (<= deviation bound; synchronisation-operation granularity at d<=2, source-line granularity at d<=1) of shutdown() racing a submitter, for every executor class and four stacks over a recording base, in every workload state (idle, queued, running, done, between retries, polling, throttled): refusal afterwards on every layer, idempotence, exactly-one propagation with identical arguments, worker threads exited after wait=True, shutdown returns.",
+    "DESIGN.md section 6 C11")
 NOT_YET = {}
 
 props = [json.loads(l) for l in open(os.path.join(HERE, "properties.jsonl"))]
